@@ -153,6 +153,39 @@ CLAIMED = {
              "documented one and .n/.base/.name/.value must report the argument back (n as the integer).",
         note="'Rejected' means any exception, as the property states. NaN/inf bases not examined.",
         ref="4/C16"),
+    "C09": dict(
+        technique="static abstract interpretation of operation histories + CFG dominance / must-pass-through rules",
+        text="Histories (length 1-5; exhaustive over the stale-memo shapes, sampled beyond) of evaluation, late/early "
+             "partials on kept objects, located/early differentials, as_expression (switching a late object to its "
+             "symbolic path), normalisation and failing calls are interpreted over a pool of 7 expressions that share "
+             "sub-expression objects at 5 concrete points; the final operation must give bit-for-bit the answer of a "
+             "fresh pool. CFG rules carry this to any history: every root traversal call is dominated by a cache reset "
+             "on the same receiver; each reset clears every memo _evaluate writes and recurses into every child on all "
+             "paths; no module keeps mutable state that functions touch.",
+        note="Sampling uses VERIF_SEED. The give-up exit of _fully_reduce (C11 budget) is a stated caveat.",
+        ref="4/C09"),
+    "C10": dict(
+        technique="static write-effect / ownership analysis + abstract interpretation of histories with structural snapshots",
+        text="Write-effect analysis of all functions: fields that define what an object denotes (children, variable set, "
+             "and every field its ==/hash/printing reads -- derived from the source) are assigned only in constructors; "
+             "every in-place mutation targets a container created in the same function (exception: the accumulators' own "
+             "scratch dictionaries). Histories over a shared pool are interpreted and after each every pooled object and "
+             "every previously returned expression is read back field by field and must be unchanged (structure, variable "
+             "sets, coordinates and their order).",
+        note="Sound for the Python subset used (setattr/delattr flagged). Memo fields may be written anywhere; C12/C13 "
+             "show they do not influence ==, hash, repr.",
+        ref="4/C10"),
+    "C17": dict(
+        technique="static abstract interpretation with modelled failure modes + call-graph reachability of raise statements",
+        text="Evaluation, all 14 numeric derivative routes and the 6 as_expression routes are interpreted on every class, "
+             "parent/undefined-child combination, region (inside/outside/on the boundary of the domain) and with "
+             "coordinates missing; /, **, math.log, math.sqrt, dict lookups, unpacking and calls on Optional values are "
+             "modelled with their own failure modes, so an escaping ValueError/ZeroDivisionError/TypeError/KeyError/"
+             "AttributeError or a complex/non-numeric result is observed as such. A call-graph rule shows every raise "
+             "reachable from the public entry points is a library error, argument validation, the documented arity "
+             "exception or an overridden abstract stub.",
+        note="Overflow/underflow (OverflowError, inf, nan) is excluded by the property and not analysed.",
+        ref="4/C17"),
 }
 
 NOT_APPLICABLE = {
